@@ -127,7 +127,7 @@ def gen_case(seed, overlong=0.0):
             pos += rnd.choice([0, 1, 1, 5, 50, 1000, 40000])
     # some contigs start far into their sequence (first record beyond the first index window / bin of any min_shift)
     for c in used:
-        if rnd2.random() < 0.3:
+        if rnd2.random() < 0.3 and contigs[c][1] != 0:      # (a contig declared with length 0 cannot be indexed beyond it as BCF)
             off = rnd2.choice([5000, 70000, 3000000, 200000000])
             for r_ in recs:
                 if r_["contig"] == c:
